@@ -157,6 +157,13 @@ Proof. exact C20.Proofs.no_trap_delta_interp. Qed.
 Theorem no_trap_delta_shift : forall r o c, delta_shift r o c <> None.
 Proof. exact C20.Proofs.no_trap_delta_shift. Qed.
 
+Theorem no_trap_delta_apply_scalar : forall d sc, i32 sc -> delta_apply_scalar d sc <> None.
+Proof. exact C20.Proofs.no_trap_delta_apply_scalar. Qed.
+Theorem no_trap_cmap12_one_group : forall cp s e g, cmap12_one_group cp s e g <> None.
+Proof. exact C20.Proofs.no_trap_cmap12_one_group. Qed.
+Theorem no_trap_hmtx_ix : forall n m gid, hmtx_advance_ix n gid <> None /\ hmtx_lsb_ix n m gid <> None.
+Proof. exact C20.Proofs.no_trap_hmtx_ix. Qed.
+
 Print Assumptions no_trap_floor.
 Print Assumptions no_trap_round.
 Print Assumptions no_trap_ceil.
@@ -214,3 +221,6 @@ Print Assumptions no_trap_add_sub_assign.
 Print Assumptions no_trap_phantom_points.
 Print Assumptions no_trap_delta_interp.
 Print Assumptions no_trap_delta_shift.
+Print Assumptions no_trap_delta_apply_scalar.
+Print Assumptions no_trap_cmap12_one_group.
+Print Assumptions no_trap_hmtx_ix.
